@@ -135,6 +135,13 @@ class Tr:
                 return env[u]
             v, tv = self.expr(e.value, env)
             s = e.slice
+            if tv == "LOC":
+                # label-based selection on a series: the labels of the result are the given
+                # labels (pandas raises KeyError for labels not in the index: a side condition of
+                # the bridge lemma)
+                t_, ty_ = self.expr(s, env)
+                self.need(ty_, "L", e)
+                return t_, "L"
             if tv == "L" and isinstance(s, ast.UnaryOp) and isinstance(s.op, ast.USub) \
                     and isinstance(s.operand, ast.Constant) and s.operand.value == 1:
                 return "(zlast %s)" % v, "Z"
